@@ -252,12 +252,13 @@ def life(name, subject, extra=(), libs=('libavoid',), **kw):
     return Job(name, 'C15_lifecycle.cpp', ['-DSUBJECT=%d' % subject] + list(extra), list(libs), **kw)
 JOBS['C15'] = {
     'quick': [
-        life('router-history-2', 1, ['-DNSTEPS=2'], bounds='orthogonal Router with shape A (2 pins, one in use), connector pin->free point (symbolic); optionally an initial transaction, then every 2-step history (then optionally a final transaction) over {processTransaction, add shape, move A, delete A, delete connector, add connector, move endpoint}; router destroyed with whatever is queued'),
+        life('router-history-2-processed', 1, ['-DNSTEPS=2', '-DINITIAL=1', '-DFINAL=1', '-DCONCRETE_END'], bounds='orthogonal Router with shape A (2 pins, one in use), connector pin->(150,40) (moves of the shape and of the endpoint are symbolic); initial transaction, then every 2-step history over {processTransaction, add shape, move A, delete A (pin in use), delete connector, add connector, move endpoint}, final transaction, destroy'),
+        life('router-history-2-queued', 1, ['-DNSTEPS=2', '-DINITIAL=2', '-DFINAL=0', '-DCONCRETE_END'], bounds='same menu; the history starts from a processed or an all-queued scene and the router is destroyed with whatever is still queued'),
         life('incsolver-history-3', 2, ['-DNSTEPS=3'], libs=['libvpsc'], bounds='IncSolver on 3 variables: every 3-step history over {satisfy, solve, addConstraint(symbolic), change desired positions}; then destroy'),
         life('fdlayout-lifecycle', 3, libs=COLA_LIBS, exclude=('libcola/output_svg.cpp',), bounds='ConstrainedFDLayout on 3 symbolic rectangles: every subset of {setConstraints, setAvoidNodeOverlaps, setUnsatisfiableConstraintInfo, makeFeasible, makeFeasible again}; destroy without run'),
     ],
     'thorough': [
-        life('router-history-3', 1, ['-DNSTEPS=3'], bounds='every 3-step history (as above)', time_limit=3000),
+        life('router-history-3', 1, ['-DNSTEPS=3', '-DINITIAL=1', '-DFINAL=2'], bounds='initial transaction, every 3-step history, optional final transaction', time_limit=3000),
         life('router-history-3-immediate', 1, ['-DNSTEPS=3', '-DTRANS=0'], bounds='every 3-step history with transactions switched off'),
     ],
 }
